@@ -8,7 +8,7 @@ from .impl import run_cases, schema_to_wire
 
 RULES = [
     ("Duplicate service", "serviceRpc"), ("Duplicate method", "serviceRpc"), ("must fit in 8 bits", "serviceRpc"),
-    ("No matching struct", "serviceRpc"),
+    ("No matching struct", "serviceRpc"), ("1 to 64 are supported", "intWidth"),
     ("Struct has no signal", "emptyStruct"),
     ("Duplicate fields", "dupField"),
     ("Duplicated enumration name", "dupEnumName"),
@@ -130,7 +130,7 @@ NAMES = ["A", "B", "C"]
 def rnd_type(rng, structs, enums, big=False):
     r = rng.random()
     if r < 0.5:
-        w = rng.choice([1, 8, 16, 31, 32, 33, 64] if not big else [32, 64])
+        w = rng.choice([1, 8, 16, 31, 32, 33, 64, 64, 0, 65, 99] if not big else [32, 64])  # 0, 65, 99: no carrier type in C++
         return {"name": rng.choice("ui") + str(w), "type": "unsigned" if rng.random() < 0.5 else "signed"}
     if r < 0.6:
         return {"name": "f32", "type": "float"}
